@@ -14,6 +14,8 @@ if [ "$what" = all ] || [ "$what" = coq ]; then
   python3 "$root/tools/gen_tables.py" > "$build/tables.log" 2>&1 || { echo "BUILD-FAIL tables (see $build/tables.log)"; rc=1; }
   ( cd "$root/coq" && { [ -f Makefile ] && [ Makefile -nt _CoqProject ] || coq_makefile -f _CoqProject -o Makefile >/dev/null 2>&1; }
     timeout 3000 make -j16 > "$build/coq.log" 2>&1 ) || { echo "BUILD-FAIL coq (see $build/coq.log)"; rc=1; }
+  # Print Assumptions of every restated theorem, once per build and in parallel (cached in build/assum; tools/check.py reads the cache)
+  [ $rc = 0 ] && [ "$what" = all ] && timeout 3000 python3 "$root/tools/check.py" --assum-all > "$build/assum.log" 2>&1
 fi
 if [ $rc = 0 ] && { [ "$what" = all ] || [ "$what" = driver ]; }; then
   if [ ! -x "$build/driver" ] || [ "$root/coq/Extract.vo" -nt "$build/driver" ] || [ "$root/driver/driver.ml" -nt "$build/driver" ] || [ "$root/driver/oracles.ml" -nt "$build/driver" ] \
